@@ -11,7 +11,7 @@
 (***************************************************************************)
 EXTENDS Pyxis, Props, Json
 
-CONSTANTS NB0, Variants, WithB1, B1Vft, Clash, DDs, DDVft, Ptrs, Split, Lead, EmptyBlocks
+CONSTANTS NB0, Variants, WithB1, B1Vft, Clash, DDs, DDVft, Ptrs, Split, Lead, EmptyBlocks, B1Names
 
 Leaf(n) == Field(n, "pub", <<>>, TCPtr(TNm("u8")), None, FALSE)
 (* base fields carry a doc comment: it is an attribute next to `base`, in either order *)
@@ -52,12 +52,14 @@ DBlock(nb0, v, k) ==
 M0(extra) == Func("m0", "pub", <<" m0 doc">>, <<ArgC>> \o extra, TNm("u32"), 262144, None, "")
 P0 == Func("p0", "priv", <<>>, <<ArgM>>, TNone, 327680, None, "")
 MD == Func("md", "pub", <<>>, <<ArgM, Arg("v", TNm("i64"))>>, TNone, 393216, None, "fastcall")
+(* a function without receiver: derived types forward it through the type of the base field, not through `self` *)
+S0 == Func("s0", "pub", <<>>, <<Arg("v", TNm("u32"))>>, TNm("u32"), 524288, None, "")
 
-MkInput(ptr, nb0, v, k, b1, b1v, clash, dd, ddv, split, lead, eb, dvis) ==
+MkInput(ptr, nb0, v, k, b1, b1v, clash, dd, ddv, split, lead, eb, dvis, b1n) ==
   LET B0 == [TypeDef("B0", "pub", <<Leaf("x0")>>) EXCEPT !.vft = IF nb0 > 0 \/ eb THEN Vft(None, BaseFuncs(nb0)) ELSE NoVft]
       B1 == [TypeDef("B1", "pub", <<Leaf("x1")>>) EXCEPT !.vft = IF b1v THEN Vft(None, <<H1>>) ELSE NoVft]
       (* dvis: the intermediate type need not be public for its own bases' functions to reach DD *)
-      D == [TypeDef("D", dvis, (IF lead THEN <<Leaf("tag")>> ELSE <<>>) \o <<BaseF("b0", "B0")>> \o (IF b1 THEN <<BaseF("b1", "B1")>> ELSE <<>>) \o <<Leaf("xd")>>)
+      D == [TypeDef("D", dvis, (IF lead THEN <<Leaf("tag")>> ELSE <<>>) \o <<BaseF("b0", "B0")>> \o (IF b1 THEN <<BaseF(b1n, "B1")>> ELSE <<>>) \o <<Leaf("xd")>>)
               EXCEPT !.vft = DBlock(nb0, v, k)]
       DD == [TypeDef("DD", "pub", <<BaseF("d", "D")>> \o (IF dd = "diamond" THEN <<BaseF("e", "B0")>> ELSE <<>>) \o <<Leaf("y")>>)
                (* with its own block: D's, or (when D only inherits its table) the base functions again plus one *)
@@ -66,7 +68,7 @@ MkInput(ptr, nb0, v, k, b1, b1v, clash, dd, ddv, split, lead, eb, dvis) ==
                               ELSE IF ddv = "flat" THEN Vft(None, Append([i \in DOMAIN BaseFuncs(nb0) |-> [BaseFuncs(nb0)[i] EXCEPT !.index = None]], G))
                               ELSE IF D.vft.has THEN D.vft ELSE Vft(None, Append(BaseFuncs(nb0), G))]
       defs == <<B0>> \o (IF b1 THEN <<B1>> ELSE <<>>) \o <<D>> \o (IF dd = "none" THEN <<>> ELSE <<DD>>)
-      impls == <<Impl("B0", <<M0(<<>>), P0>>)>>
+      impls == <<Impl("B0", <<M0(<<>>), P0, S0>>)>>
                (* B1 also has a public `p0`: B0's private function of that name does not take the name *)
                \o (IF b1 THEN <<Impl("B1", <<M0(<<Arg("k", TNm("i32"))>>), Func("p0", "pub", <<>>, <<ArgC>>, TNm("u32"), 458752, None, "")>>)>> ELSE <<>>)
                \o <<Impl("D", <<IF clash = "derived" THEN M0(<<>>) ELSE MD>>)>>
@@ -82,7 +84,11 @@ MkInput(ptr, nb0, v, k, b1, b1v, clash, dd, ddv, split, lead, eb, dvis) ==
 
 MCInit ==
   /\ \E ptr \in Ptrs, nb0 \in NB0, v \in Variants, k \in 1..2, b1 \in WithB1, b1v \in B1Vft,
-        clash \in Clash, dd \in DDs, ddv \in DDVft, split \in Split, lead \in Lead, eb \in EmptyBlocks, dvis \in {"pub", "priv"} :
+        clash \in Clash, dd \in DDs, ddv \in DDVft, split \in Split, lead \in Lead, eb \in EmptyBlocks, dvis \in {"pub", "priv"},
+        b1n \in B1Names :
+        (* the name of the second base field matters only when there is one; a name that starts with `_` next to the simplest shapes *)
+        /\ (~b1 => b1n = "b1")
+        /\ (b1n # "b1" => (v \in {"none", "same"} /\ ~lead /\ ~split /\ dvis = "pub" /\ ddv = "no"))
         /\ (dvis = "priv" => (dd # "none" /\ ~split /\ ~lead /\ ~b1v /\ clash = "no"))
         /\ k <= Max(Len(BaseFuncs(nb0)), 1)
         /\ (v \in {"none", "same", "ext", "extm0", "emptyblk", "trunc", "swap", "short"} => k = 1)
@@ -93,7 +99,7 @@ MCInit ==
         /\ (ddv = "flat" => (v = "none" /\ nb0 = 3))
         /\ (eb => nb0 = 0)
         /\ (lead => (dd = "none" /\ clash = "no" /\ ~b1v))
-        /\ input = MkInput(ptr, nb0, v, k, b1, b1v, clash, dd, ddv, split, lead, eb, dvis)
+        /\ input = MkInput(ptr, nb0, v, k, b1, b1v, clash, dd, ddv, split, lead, eb, dvis, b1n)
   /\ InitRest
 
 MCSpec == MCInit /\ [][Next]_vars /\ WF_vars(Next)
